@@ -862,13 +862,13 @@ COST = {n: (Cx.get(n).Lp / 32.0) ** 3 for n in NAMES}
 
 def all_targets(tier, what):
     ts = []
+    kind = what
+    if what in ("struct", "bytes256"):
+        what = "mutate"  # same seeds, restricted below
     if what == "mutate":
         names = MUT_CURVES_QUICK if tier == "quick" else NAMES
     else:
         names = NAMES
-    kind = what
-    if what in ("struct", "bytes256"):
-        what = "mutate"  # same seeds, restricted below
     for name in names:
         sp = special_keys(name)
         ks = [seeded_scalar(name, 100)]
@@ -890,7 +890,8 @@ def all_targets(tier, what):
     if kind == "struct":
         ts = [t for t in ts if t["dec"].split(":")[0].endswith("from_der")]
     if kind == "bytes256":  # ECParameters and the string decoders only (cheap per decode, and where field values matter)
-        ts = [t for t in ts if t["dec"] in ("curve.from_der", "vk.from_string", "sk.from_string", "plug.pub.from_raw")]
+        ts = [t for t in ts if t["dec"] in ("curve.from_der", "vk.from_string", "sk.from_string", "plug.pub.from_raw")
+              and not (tier == "quick" and t.get("enc") == "hybrid")]
     ts.sort(key=lambda t: -cost(t))
     return ts
 
